@@ -97,6 +97,10 @@ def run(res, tier, seed):
             sws = [rng.choice([0, 1]) for _ in range(n)]
             nz = rng.getrandbits(32)   # both files of the pair: the same random bytes in every record field the writer does not set
             lines = l1b.default_lines(fmt, n, start, counts=wb, qual=qs, switch=sws, numbers=numbers, noise=random.Random(nz))
+            for i_, ln_ in enumerate(lines):      # telemetry drifting along the pass (a constant one hides changes of single readings)
+                ln_["prt"] = [v + (i_ % 7) if v else 0 for v in ln_["prt"]]
+                ln_["ict"] = [v + (i_ * 3) % 11 for v in ln_["ict"]]
+                ln_["space"] = [v + (i_ * 5) % 7 for v in ln_["space"]]
             # a few lines carry out-of-range latitudes (95 degrees) in all tie points: their coordinates are invalid (C06),
             # but that is not a quality flag -- channels and mask of such a line must not change
             oor_idx = rng.sample(range(n), 3) if pattern != "clean-drift" else []
@@ -110,6 +114,8 @@ def run(res, tier, seed):
             lines2 = l1b.default_lines(fmt, n, start, counts=wb, qual=[q & keep for q in qs], switch=sws, numbers=numbers, noise=random.Random(nz))
             for i_ in oor_idx:
                 lines2[i_]["lats"] = [int(95 * sc_)] * 51
+            for ln_, l2_ in zip(lines, lines2):
+                l2_["prt"], l2_["ict"], l2_["space"] = list(ln_["prt"]), list(ln_["ict"]), list(ln_["space"])
             data2 = l1b.build_file(fmt, sc, start, lines2)
             plan_no = plans.index((fmt, sc, n, pattern))
             # every other pass is read with tie-point-only coordinates (interpolation off): the blanking must be the same
